@@ -101,6 +101,12 @@ class Env:
             r = ValueWrapper(int(t["n"]))
         elif k == "str":
             r = ValueWrapper(t["n"])
+        elif k == "flt":
+            r = ValueWrapper(float(t["n"]))
+        elif k == "bool":
+            r = ValueWrapper(bool(t["v"]))
+        elif k == "arr":
+            r = P.Array(*[int(x["n"]) for x in t["items"]])
         elif k == "bin":
             l, rr = self.term(t["l"]), self.term(t["r"])
             r = {"=": operator.eq, "<>": operator.ne, "<": operator.lt, ">": operator.gt, "+": operator.add, "-": operator.sub,
@@ -117,7 +123,7 @@ class Env:
             r = self.term(t["a"]).between(self.term(t["lo"]), self.term(t["hi"]))
         elif k == "call":
             args = [self.term(x) for x in t["args"]]
-            cls = {"SUM": fn.Sum, "MAX": fn.Max, "COUNT": fn.Count, "UPPER": fn.Upper}.get(t["f"])
+            cls = {"SUM": fn.Sum, "MAX": fn.Max, "COUNT": fn.Count, "UPPER": fn.Upper, "COALESCE": fn.Coalesce}.get(t["f"])
             r = cls(*args) if cls else Function(t["f"], *args)
         elif k == "case":
             r = P.Case().when(self.term(t["w"]), self.term(t["t"])).else_(self.term(t["e"]))
